@@ -446,4 +446,11 @@ def r9_files_attributed_one_to_one(ctx):
     r3_attribution(ctx)
 
 
-RULES = [r9_files_attributed_one_to_one, r7_every_task_runs_its_own_pipeline, r8_evolved_algorithm_comes_back, r6_names_values_same_order, r1_sibling_run_space, r2_no_shared_state_in_task, r3_one_suffix_per_run, r4_task_independence, r5_island_order]
+def r10_parallel_rows_read_their_own_columns(ctx):
+    """Custom mode on the dask path hands every parameter the same table columns as the sequential path: the column cursor of convert_custom_data (shared with C05.R9)."""
+    from props.C05 import r9_dask_column_cursor
+
+    r9_dask_column_cursor(ctx)
+
+
+RULES = [r10_parallel_rows_read_their_own_columns, r9_files_attributed_one_to_one, r7_every_task_runs_its_own_pipeline, r8_evolved_algorithm_comes_back, r6_names_values_same_order, r1_sibling_run_space, r2_no_shared_state_in_task, r3_one_suffix_per_run, r4_task_independence, r5_island_order]
